@@ -583,6 +583,7 @@ class Ctx:
         self.conc_assume_failed = []
         self.observed = {}
         self.conc_checked = 0
+        self.validate_left = 0
 
     # ------------------------------------------------------------------ exploration
     def explore(self, fn, name="case"):
@@ -623,6 +624,8 @@ class Ctx:
         self.fresh = 0
         self.inputs = {}
         self.observed = {}
+        self._obs_model = None
+        self._obs_model_failed = False
         self.path_note = []
         self._uf_terms = {}
         self.solver.push()
@@ -828,6 +831,7 @@ class Ctx:
             self.solver.pop()
             res.queries += 1
         res.solver_s += time.time() - t0
+        lab["t"] = round(lab.get("t", 0.0) + time.time() - t0, 3)
         if r == "unsat":
             res.discharged += 1
             lab["ok"] += 1
@@ -1222,7 +1226,36 @@ class Ctx:
 
     # ------------------------------------------------------------------ observation (encoding validation)
     def observe(self, name, value):
-        self.observed[name] = value
+        """encoding validation: in sym mode the value is evaluated under a model of the path condition *at this
+        point* (place it before UF-heavy code); the runner re-executes the harness on floats and compares."""
+        if self.mode == "conc":
+            self.observed[name] = value
+            return
+        if self.validate_left <= 0:
+            return
+        if self._obs_model is None:
+            if self._obs_model_failed:
+                return
+            self.solver.set("timeout", 5000)
+            t0 = time.time()
+            r = str(self.solver.check())
+            self.result.solver_s += time.time() - t0
+            self.result.queries += 1
+            if r != "sat":
+                self._obs_model_failed = True
+                return
+            m = self.solver.model()
+            md = {}
+            for nm, sv in self.inputs.items():
+                md[nm] = eval_model(m, sv)
+                if isinstance(sv, SR) and sv.n is not None:
+                    md[nm + "__nan"] = bool(z3.is_true(m.eval(sv.n, model_completion=True)))
+            for d in m.decls():
+                if d.arity() == 0 and d.name() not in md and "!" not in d.name():
+                    md[d.name()] = _py(m[d])
+            self._obs_model = (m, md)
+        m = self._obs_model[0]
+        self.observed[name] = _eval_obs(m, value)
 
 
 def _nanflag(x):
@@ -1245,6 +1278,16 @@ def _py(v):
     if z3.is_false(v):
         return False
     return str(v)
+
+
+def _eval_obs(m, v):
+    if isinstance(v, np.ndarray):
+        return [_eval_obs(m, x) for x in v.flat]
+    if isinstance(v, (list, tuple)):
+        return [_eval_obs(m, x) for x in v]
+    if isinstance(v, (bool, np.bool_, int, np.integer)):
+        return float(v)
+    return eval_model(m, v)
 
 
 def eval_model(m, x):
